@@ -89,3 +89,48 @@ Example C18_reuse_nonvacuous :
   r_ret ex_o1 = 73 /\ r_ret ex_o2 = 49 /\ s_cur (r_ctx ex_o2) = 141 /\ s_tt (r_ctx ex_o2) = 3 /\
   strict_valid [] (r_out ex_o2) = Some ex_b2.
 Proof. exact ex_reuse. Qed.
+
+(* ================================================================ HC, lz4mid levels (compression levels 1 and 2)
+   [hstate_inv] = memory holds bytes /\ [hs_ok]: lowLimit <= dictLimit, prefixStart <= end, the index reached so far stays below
+   2^31 + LZ4_MAX_INPUT_SIZE, an anchored context has lowLimit >= 64 KB, and - unless dirty - every entry of both hash
+   tables is an index below the index reached so far; an attached dictionary context is clean and anchored, and one at an
+   lz4mid level has the shape LZ4_loadDictHC produces ([dsearch_ok]).
+   - C18_hc_mid_reuse / _step: established by LZ4_initStreamHC and preserved by EVERY modelled operation of ANY history that
+     stays in the model: failed calls (dirty), LZ4_resetStreamHC(_fast), level changes within 1-2, loadDictHC, attach,
+     saveDictHC (also on a stream that has not started: fix F17), destSize calls with partial consumption, one-shot
+     LZ4_compress_HC_extStateHC(_fastReset) on the stream object.
+   - C18_hc_mid_fastReset: the one-shot fast-reset call on a context in ANY such state runs the parser on a freshly anchored
+     index space (64 KB above every table entry): its block decodes WITHOUT history (claim in C18_hc_mid_history). *)
+From LZ4V Require Import Model.HcEmit Model.HcMid Model.HcMidStream Proofs.HcMidStreamProofs Proofs.HcMidStreamHist Proofs.HcMidStreamExamples.
+
+Theorem C18_hc_mid_reuse :
+  forall ops st st', hstate_inv st -> hops_pre st ops -> hrun st ops = Some st' -> hstate_inv st'.
+Proof. exact hs_inv_run. Qed.
+Print Assumptions C18_hc_mid_reuse.
+
+Theorem C18_hc_mid_step :
+  forall st o st' x, hstate_inv st -> hop_pre st o -> hstep st o = Some (st', x) -> hstate_inv st'.
+Proof. exact hstep_inv. Qed.
+Print Assumptions C18_hc_mid_step.
+
+Theorem C18_hc_mid_fastReset :
+  forall m c src n cap level ret consumed out hw c',
+  hmem_ok m -> hs_ok c -> 0 < src -> 0 <= n < 2147483648 -> 0 <= cap ->
+  hs_fastReset m c src n cap level = Some (HRes ret consumed out hw c') ->
+  let lim := if cap <? compressBound n then LimitedOutput else NotLimited in
+  let ke := k_init_internal (hs_core (hs_resetFast c level)) src in
+  k_ready ke src /\ k_lowLimit ke = k_dictLimit ke /\ k_endIdx ke = k_dictLimit ke /\
+  call_post m ke None src n cap lim ret consumed out hw c'.
+Proof. exact hs_fastReset_sound. Qed.
+Print Assumptions C18_hc_mid_fastReset.
+
+Theorem C18_hc_mid_history :
+  forall ops st H, hstate_inv st -> hstream_pre st H ops -> hstream_claim st H ops.
+Proof. exact hstream_roundtrip. Qed.
+Print Assumptions C18_hc_mid_history.
+
+Example C18_hc_mid_nonvacuous :
+  hstate_inv (ex_m, ex_hc0) /\ hstream_pre (ex_m, ex_hc0) [] ex_hops /\
+  htrace (ex_m, ex_hc0) ex_hops =
+  [Some (81, 0); Some (20, 78); Some (18, 63); Some (100, 0); Some (28, 78); Some (12, 34); Some (0, 78); Some (0, 0); Some (73, 78)].
+Proof. exact (conj ex_hstate (conj ex_hstream_pre ex_htrace)). Qed.
